@@ -4,6 +4,9 @@
 #include "hx.h"
 
 #include <reproc++/reproc.hpp>
+#include <reproc++/run.hpp>
+
+#include <sys/stat.h>
 
 #include <cstdio>
 #include <cstring>
@@ -20,9 +23,12 @@ char key[200];
 const int lens[] = { 2, 3, 8, 15, 16, 17, 23, 24, 25, 31, 32, 33, 39, 40, 41, 56, 72 };
 const int NLENS = 17;
 
+void launch_run2(long k);
+
 void launch_run(int tier, long cfg)
 {
   (void) tier;
+  if (cfg >= 2L * NLENS * 3) { launch_run2(cfg - 2L * NLENS * 3); return; }
   int behavior = (int) (cfg % 2);
   cfg /= 2;
   int li = (int) (cfg % NLENS);
@@ -72,7 +78,39 @@ void launch_run(int tier, long cfg)
   }
 }
 
-long launch_n(int tier) { (void) tier; return 2L * NLENS * 3; }
+// the convenience entry points copy the options before they start the child (options cannot be copied implicitly): what was asked for must survive
+void launch_run2(long k)
+{
+  memset(&vk_cfg, 0, sizeof vk_cfg);
+  vk_cfg.vlimit = 24;
+  snprintf(key, sizeof key, "h_c03_cxx|run(arguments, options)|variant=%ld", k);
+  hx_desc("%s", key);
+  snprintf(key, sizeof key, "h_c03_cxx|run(arguments, options)");
+  hx_begin();
+  snprintf(S->crashkey, sizeof S->crashkey, "%s", key);
+  mkdir("sub", 0755);
+  std::vector<std::pair<std::string, std::string>> extra = { { "RUN2", "yes" } };
+  std::vector<std::string> args = { vk_helper_path, "one", "" };
+  reproc::options o;
+  o.working_directory = "sub";
+  o.env.behavior = k ? reproc::env::empty : reproc::env::extend;
+  o.env.extra = reproc::env(extra);
+  o.redirect.discard = true;
+  vk_script("X0");
+  std::pair<int, std::error_code> res = reproc::run(args, o);
+  if (res.second || res.first != 0) { vk_violation("C03", "start", key, "reproc::run returned %d / %s", res.first, res.second.message().c_str()); return; }
+  if (vk_nchildren != 1 || !vk_children[0].have_hello) { vk_violation("C04", "success-without-program", key, "no hello"); return; }
+  struct vk_child *c = &vk_children[0];
+  char want[600];
+  snprintf(want, sizeof want, "%s/sub", hx_workdir);
+  if (strcmp(c->hello.cwd, want)) vk_violation("C03", "cwd-exact", key, "through reproc::run(arguments, options) the child runs in \"%s\", \"%s\" was requested", c->hello.cwd, want);
+  int np = 0;
+  if (!k) while (vk_environ[np]) np++;
+  if (c->hello.envc != np + 1 || strcmp(c->hello.envp[np], "RUN2=yes")) vk_violation("C03", "env-exact", key, "through reproc::run(arguments, options) the environment differs (%d entries)", c->hello.envc);
+  if (c->hello.argc != 3 || strcmp(c->hello.argv[1], "one") || strcmp(c->hello.argv[2], "")) vk_violation("C03", "argv-exact", key, "through reproc::run(arguments, options) the arguments differ (%d)", c->hello.argc);
+}
+
+long launch_n(int tier) { (void) tier; return 2L * NLENS * 3 + 2; }
 
 } // namespace
 
